@@ -326,6 +326,33 @@ class Check:
             self.gate_problems = []
         return not problems
 
+    # ---- translated tie ---------------------------------------------------------------------
+    def translation_tie(self, translate, src, vname):
+        """second tie: definitions TRANSLATED from the source file `src` by the fail-closed translator `translate` and
+        proved equal to the hand-written model.  Returns None when the tie holds, else what no longer checks."""
+        try:
+            text = translate(str(src))
+        except Exception as e:
+            if type(e).__name__ == 'TranslateError':
+                return f'translator rejects {src}: {e} (the source no longer has the shape the model was read from)'
+            return f'translator failed on {src}: {type(e).__name__}: {e}'
+        v = self.work / vname
+        v.write_text(text)
+        r = run_coqc(v.name, cwd=self.work)
+        self.extra.setdefault('translated_definitions', []).extend(l.strip()[:300] for l in text.splitlines() if l.startswith('Definition'))
+        if r.returncode != 0:
+            return ('the definitions translated from the source are NOT equal to the model the theorems are about: '
+                    + (r.stdout + r.stderr).strip()[-500:])
+        self.count('translated-and-proved-equal')
+        return None
+
+    def report_broken_tie(self, sig, broken_tie, lemmas, theorem):
+        """a broken translated tie is reported with the concrete failing inputs the behavioural exploration found, or
+        with no-failing-input-found"""
+        found = [str(rp) for _, rp, nf in self.violations if not nf]
+        self.report_violation(sig, {'no_failing_input': not found, 'broken': [lemmas], 'detail': broken_tie, 'theorem': theorem,
+                                    'failing_inputs_found_by_the_exploration': found[:5]}, what=sig + ': ' + broken_tie[:300])
+
     # ---- implementation side -----------------------------------------------------------------
     def impl_env(self, hashseed=None):
         env = dict(os.environ)
